@@ -61,6 +61,7 @@ type histRun struct {
 	lastProj   *Project
 	lastArgs   []string
 	lastIndex  bool
+	codeEdited bool // something other than source files / generated files was edited since the last process
 }
 
 func newHistRun(c *simcheck.Ctx, sc *histScenario) (*histRun, error) {
@@ -105,6 +106,11 @@ func (h *histRun) refreshModel(why string) {
 // edit applies a non-build operation to the spec, the disk and the model.
 func (h *histRun) edit(i int, op *opSpec) error {
 	h.w.op = i
+	switch op.Op {
+	case "edit-source", "touch", "rewrite-same", "dir-add", "dir-remove", "dir-rename", "dir-swap", "dir-move", "subdir-rename", "delete-generated", "nop":
+	default:
+		h.codeEdited = true
+	}
 	why := fmt.Sprintf("op %d: %s %s%s%s", i, op.Op, op.Item, op.Path, op.Label)
 	if h.p.applySpecEdit(op) || h.p.applySpecEdit2(op) {
 		var err error
@@ -142,13 +148,17 @@ func (h *histRun) buildNamed(name string, i int, op *opSpec, pc procCfg, hook fu
 	if op.DryNil {
 		bo.DryThenNil = 1 + op.N%2
 	}
-	if op.Reload && h.lastProj != nil && !h.lastIndex && sameArgs(h.lastArgs, bo.Args) {
+	if op.Keep && h.lastProj != nil && !h.lastIndex && !h.codeEdited && sameArgs(h.lastArgs, bo.Args) {
+		bo.Keep = h.lastProj
+		h.w.ctx.St.Count("run_again_on_loaded_project", 1)
+	} else if op.Reload && h.lastProj != nil && !h.lastIndex && sameArgs(h.lastArgs, bo.Args) {
 		// the builtins of the kept Project point at this world already (same histRun)
 		bo.Reuse = h.lastProj
 		h.w.ctx.St.Count("reload_instead_of_load", 1)
 	}
 	res := h.w.process(name, pc, bo, hook)
 	h.lastProj, h.lastArgs, h.lastIndex = nil, bo.Args, bo.PreferIndex
+	h.codeEdited = false
 	if res.LoadErr == nil && res.Sim.Failure == nil && !res.Sim.Crashed && !res.Sim.Stuck {
 		h.lastProj = res.Proj
 	}
